@@ -98,6 +98,7 @@ def submitted : List Props.EncOp → List (Bytes × Bytes)
   | [] => []
   | .setSize _ :: ops => submitted ops
   | .encode hs _ :: ops => (hs.filterMap fun h => if h.2.2 then none else some (h.1, h.2.1)) ++ submitted ops
+  | .encodeRaises hs _ :: ops => (hs.filterMap fun h => if h.2.2 then none else some (h.1, h.2.1)) ++ submitted ops
 
 theorem encLoop_entries_subset (huff : Bool) (hs : List (Bytes × Bytes × Bool)) (e : EncState) (hinv : Inv e.table)
     (acc : Bytes) (r : Bytes × EncState) (h : encLoop true huff e acc hs = .ok r) :
@@ -147,6 +148,19 @@ theorem encStep_entries_subset (e : EncState) (hok : EncOK e) (op : Props.EncOp)
       simp only [hr', Bool.false_eq_true, if_false, bind] at henc
       rw [encode_go_eq] at henc
       exact encLoop_entries_subset huff hs e hok.inv _ _ henc
+  | encodeRaises hs huff =>
+    obtain ⟨b, e', henc, _⟩ := Props.encode_encOK e hok hs huff
+    simp only [Props.encStep, henc, submitted, List.append_nil]
+    unfold Cur.encode EncState.encode at henc
+    have hinv0 : Inv ({ e.table with resized := false } : Table) := ⟨hok.inv.cached, hok.inv.bounded⟩
+    by_cases hr : e.table.resized = true
+    · simp only [hr, if_true, bind] at henc
+      rw [encode_go_eq] at henc
+      exact encLoop_entries_subset huff hs ⟨{ e.table with resized := false }, []⟩ hinv0 _ _ henc
+    · have hr' : e.table.resized = false := by simpa using hr
+      simp only [hr', Bool.false_eq_true, if_false, bind] at henc
+      rw [encode_go_eq] at henc
+      exact encLoop_entries_subset huff hs e hok.inv _ _ henc
 
 /-- **Encoder, whole histories**: every entry in the table of an encoder reached by any history was
     submitted as a non-sensitive field at some point of that history — a sensitive field never gets in -/
@@ -169,10 +183,12 @@ theorem table_entries_were_submitted (ops : List Props.EncOp) :
         cases op with
         | setSize n => simp [submitted] at h2
         | encode hs huff => simp only [submitted, List.append_nil] at h2; simp only [submitted]; exact List.mem_append_left _ h2
+        | encodeRaises hs huff => simp only [submitted, List.append_nil] at h2; simp only [submitted]; exact List.mem_append_left _ h2
     · right
       cases op with
       | setSize n => exact h
       | encode hs huff => simp only [submitted]; exact List.mem_append_right _ h
+      | encodeRaises hs huff => simp only [submitted]; exact List.mem_append_right _ h
 
 /-- **Decoder**: a never-indexed literal is decoded into the never-indexed tuple class and is not inserted
     into the decoder's table; a literal without indexing yields the plain class and no insertion; only
